@@ -25,7 +25,11 @@ use std::time::Duration;
 pub struct JOrder {
     #[serde(rename = "type")]
     pub ty: String,
+    #[serde(default)]
     pub id: u64,
+    /// textual id (UUID or ULID form) - takes precedence over `id`
+    #[serde(default)]
+    pub id_str: Option<String>,
     #[serde(default)]
     pub price: u64,
     #[serde(default)]
@@ -59,7 +63,7 @@ pub struct JOrder {
 pub fn oid(n: u64) -> OrderId { OrderId::from_u64(n) }
 
 pub fn build_order(j: &JOrder) -> Result<OrderType<()>, String> {
-    let id = oid(j.id);
+    let id = match &j.id_str { Some(t) => t.parse::<OrderId>().map_err(|e| format!("bad id_str {t}: {e}"))?, None => oid(j.id) };
     let side = match j.side.as_deref().unwrap_or("Buy") { "Buy" | "BUY" | "buy" => Side::Buy, "Sell" | "SELL" | "sell" => Side::Sell, s => return Err(format!("bad side {s}")) };
     let tif = match j.tif.as_deref().unwrap_or("Gtc") {
         "Gtc" => TimeInForce::Gtc, "Ioc" => TimeInForce::Ioc, "Fok" => TimeInForce::Fok, "Day" => TimeInForce::Day,
